@@ -119,6 +119,23 @@ fn enum_triples(bits: usize, f: &mut dyn FnMut(&Case) -> R) -> R {
     Ok(())
 }
 
+/// all (a, b, m) with limbs from a small alphabet (complete enumeration; exponent = b's low limb mod 8)
+fn enum_alphabet_triples(bits: usize, f: &mut dyn FnMut(&Case) -> R) -> R {
+    let alpha: &[u64] = if nlimbs(bits) <= 2 { &LIMB_ALPHABET5 } else { &[1, 1 << 63, u64::MAX] };
+    let vals = alphabet_values(bits, alpha);
+    let n = nlimbs(bits);
+    for la in &vals {
+        for lb in &vals {
+            for lm in &vals {
+                let mut e = vec![0u64; n];
+                e[0] = lb[0] % 8;
+                f(&Case::new().l(la.clone()).l(lb.clone()).l(lm.clone()).l(mask_vec(e, bits)))?;
+            }
+        }
+    }
+    Ok(())
+}
+
 fn enum_inv(bits: usize, f: &mut dyn FnMut(&Case) -> R) -> R {
     let n = 1u64 << bits;
     for a in 0..n {
@@ -183,7 +200,7 @@ fn body<const B: usize, const L: usize>(c: &Case, rec: &mut Rec) -> R {
 fn main() {
     let spec = PropSpec {
         id: "C10",
-        rule_text: "tuples (a, b, m, e) per width: m from {0,1,2,3, 2^k, 2^k+-1, 2^BITS-1, 2^BITS-2, 2^(BITS-1), boundary-alphabet values of every limb length 1..LIMBS, normalised generic moduli of every limb length (top bit of the leading limb set, leading limb just above 2^63 half of the time)}; operands placed relative to m: {0, 1, m-1, m, m+1, MAX, k*m+{0,1,2}, exact multiples (largest that fits, generic cofactor, one-limb cofactor >= 2^63), alphabet}, one case in eight with b = k*m - a (the sum is an exact multiple); exponents {0..3, 2^k, 2^k-1, alphabet truncated to <= 128 bits (full width for BITS <= 64)}; exhaustive: all (a,b,m) triples for BITS <= 5, all (a,m) pairs for inv_mod for BITS <= 8. Oracle: num-bigint %, modpow, gcd; 0 when m = 0; inv_mod by its defining predicate. Non-trivial: m >= 2 and (an operand >= m, or a+b >= 2^BITS, or a*b >= 2^BITS, or m has fewer limbs than the product); distinct by inputs.",
+        rule_text: "tuples (a, b, m, e) per width: m from {0,1,2,3, 2^k, 2^k+-1, 2^BITS-1, 2^BITS-2, 2^(BITS-1), boundary-alphabet values of every limb length 1..LIMBS, normalised generic moduli of every limb length (top bit of the leading limb set, leading limb just above 2^63 half of the time)}; operands placed relative to m: {0, 1, m-1, m, m+1, MAX, k*m+{0,1,2}, exact multiples (largest that fits, generic cofactor, one-limb cofactor >= 2^63), alphabet}, one case in eight with b = k*m - a (the sum is an exact multiple); exponents {0..3, 2^k, 2^k-1, alphabet truncated to <= 128 bits (full width for BITS <= 64)}; exhaustive: all (a,b,m) triples for BITS <= 5, all (a,m) pairs for inv_mod for BITS <= 8, all (a,b,m) with limbs from {0,1,2^63,MAX-1,MAX} (2 limbs) / {1,2^63,MAX} (3 limbs) at 6 widths. Oracle: num-bigint %, modpow, gcd; 0 when m = 0; inv_mod by its defining predicate. Non-trivial: m >= 2 and (an operand >= m, or a+b >= 2^BITS, or a*b >= 2^BITS, or m has fewer limbs than the product); distinct by inputs.",
         assumptions: vec![
             "num-bigint / num-integer modpow, gcd and % are correct (oracle)",
             "exponents are truncated to 128 bits above 64-bit widths to bound the cost of the oracle and of pow_mod",
@@ -195,6 +212,7 @@ fn main() {
         |jobs, _| {
             reg_enum!(jobs, "mod_all_triples", enum_triples, body; [0, 1, 2, 3, 4, 5]);
             reg_enum!(jobs, "inv_mod_all_pairs", enum_inv, body; [6, 7, 8]);
+            reg_enum!(jobs, "mod_limb_alphabet", enum_alphabet_triples, body; [65, 127, 128, 129, 190, 192]);
             w_all!(reg_gen!(jobs, "mod", 12000, strat, body;));
             reg_gen!(jobs, "mod", 1000, strat, body; [1024]);
         },
